@@ -53,6 +53,7 @@ struct OpInst {
   int64_t p[4];
   uint64_t salt;
   int32_t throw_at;   // callback_throw fault: throw at the k-th callable invocation (-1: never)
+  int32_t rep;        // number of times the call is repeated inside the operation
   void* st;           // prepared state (pool pointers, private inputs); owned by the controller
   int32_t cb_count;   // callable invocations so far (task-private)
 };
